@@ -75,6 +75,10 @@ func (p *parser) parse() (e *expr.Expression, err error) {
 			if final.Op == expr.Literal && p.defaultField != "" {
 				final = expr.Expr(p.defaultField, expr.Equals, final.Left)
 			}
+			// the same for a single wildcard or regexp term
+			if (final.Op == expr.Wild || final.Op == expr.Regexp) && p.defaultField != "" {
+				final = expr.Eq(expr.Column(p.defaultField), final)
+			}
 
 			return final, nil
 		}
